@@ -18,25 +18,41 @@ def main():
         results = json.load(open(results_path))
     except Exception:
         results = {}
+    only_missing = os.environ.get("SEEDS_ONLY_MISSING") == "1"
+    jobs = []
     for name in sorted(os.listdir(os.path.join(HERE, "seeded"))):
         d = os.path.join(HERE, "seeded", name)
         if not os.path.isdir(d):
             continue
         prop = name.split("-")[0]
-        if want and prop not in want:
+        if want and prop not in want and name not in want:
+            continue
+        if only_missing and name in results:
             continue
         if not os.path.exists(os.path.join(HERE, "harness", "props", prop.lower() + ".py")):
             continue
+        jobs.append((name, prop, d))
+
+    def run(job):
+        name, prop, d = job
         p = subprocess.run([os.path.join(HERE, "tools", "try_patch.sh"), prop, os.path.join(d, "patch.diff")],
                            stdout=subprocess.PIPE, stderr=subprocess.STDOUT, text=True,
                            env=dict(os.environ, VERIF_JOBS=os.environ.get("VERIF_JOBS", "8")))
         out = p.stdout
         vio = re.findall(r"^VIOLATION .*$", out, re.M)
         summ = json.load(open(os.path.join(d, "meta.json"))).get("summary", "")
-        results[name] = {"property": prop, "caught": bool(vio), "violation_lines": [v.replace(HERE, "/verif") for v in vio][:3],
-                         "no_failing_input": any("no-failing-input-found" in v for v in vio) and all("no-failing-input-found" in v for v in vio),
-                         "summary": summ, "last_line": out.strip().splitlines()[-2] if out.strip() else ""}
-        print(name, "CAUGHT" if vio else "MISSED", flush=True)
+        applies = "patch does not apply" not in out and "error: patch failed" not in out
+        return name, {"property": prop, "caught": bool(vio), "violation_lines": [v.replace(HERE, "/verif") for v in vio][:3],
+                      "no_failing_input": any("no-failing-input-found" in v for v in vio) and all("no-failing-input-found" in v for v in vio),
+                      "patch_applies": applies,
+                      "summary": summ, "last_line": out.strip().splitlines()[-2] if len(out.strip().splitlines()) > 1 else out.strip()}
+
+    import concurrent.futures
+    with concurrent.futures.ThreadPoolExecutor(max_workers=int(os.environ.get("SEEDS_PAR", "1"))) as ex:
+        for name, r in ex.map(run, jobs):
+            results[name] = r
+            print(name, ("CAUGHT" if r["caught"] else "MISSED") + ("" if r["patch_applies"] else " (PATCH DOES NOT APPLY)"), flush=True)
+            json.dump(results, open(results_path, "w"), indent=1, sort_keys=True)
     json.dump(results, open(results_path, "w"), indent=1, sort_keys=True)
     with open(os.path.join(HERE, "seeded", "RESULTS.md"), "w") as f:
         f.write("# Seeded changes and what the quick checks report on them\n\n"
@@ -46,7 +62,7 @@ def main():
                 "| seed | property | result | change |\n|---|---|---|---|\n")
         for name in sorted(results):
             r = results[name]
-            res = "MISSED" if not r["caught"] else ("caught, no-failing-input-found" if r["no_failing_input"] else "caught with failing input")
+            res = "patch no longer applies" if not r.get("patch_applies", True) else "MISSED" if not r["caught"] else ("caught, no-failing-input-found" if r["no_failing_input"] else "caught with failing input")
             f.write("| %s | %s | %s | %s |\n" % (name, r["property"], res, r["summary"].replace("|", "/")))
 
 
